@@ -569,30 +569,36 @@ func overlayStart(c *Ctx) *overlayWork {
 	return w
 }
 
+// broken reports a failure of the harness machinery itself (not a decision about the
+// property): the run ends with a non-zero exit status, which bin/check reports as a
+// broken harness ("no-failing-input-found"), never as a violation with a key.
+func broken(format string, a ...any) {
+	fmt.Printf("C13 harness cannot decide the pipeline clause: "+format+"\n", a...)
+	os.Exit(3)
+}
+
 func pipeline(c *Ctx, w *overlayWork) {
 	<-w.done
 	if w.err != nil {
-		c.Violate("pipeline:overlay", "cannot construct the portable overlay: "+w.err.Error(), nil)
-		return
+		broken("cannot construct the portable overlay: %v", w.err)
 	}
 	for k, v := range w.stats {
 		c.Count("overlay/" + k)
 		c.D.Distribution["overlay/"+k] += v - 1
 	}
 	if w.buildOut != "" {
-		c.Violate("build:portable-overlay", "the module does not build without its architecture-specific files (amd64/arm64 files removed, !amd64 files un-constrained)",
-			map[string]any{"compiler_output": tail(w.buildOut, 3000)})
-		return
+		// the real non-assembly targets are decided by the build matrix (linux/386, arm, wasm ...);
+		// the overlay build is only the vehicle of the two-build comparison
+		broken("the overlay (no-assembly) build of the harness failed: %s", tail(w.buildOut, 3000))
 	}
 	nres, order, nh, err1 := w.normal.res, w.normal.order, w.normal.hdr, w.normal.err
 	pres, ph, err2 := w.portable.res, w.portable.hdr, w.portable.err
 	if err1 != nil || err2 != nil {
-		c.Violate("pipeline:worker", fmt.Sprintf("pipeline worker failed: normal=%v portable=%v", err1, err2), nil)
-		return
+		broken("pipeline worker failed: normal=%v portable=%v", err1, err2)
 	}
 	c.D.Notes = append(c.D.Notes, "pipeline builds: normal ["+nh+"], overlay ["+ph+"]")
 	if !strings.Contains(ph, "variants=0") && runtime.GOARCH == "amd64" {
-		c.Violate("pipeline:overlay-not-portable", "the overlay build still contains assembly variants", map[string]any{"header": ph})
+		broken("the overlay build still contains assembly variants (%s): architecture-specific files are no longer recognised by name / build constraint", ph)
 	}
 	sort.Strings(order)
 	for _, name := range order {
@@ -602,7 +608,10 @@ func pipeline(c *Ctx, w *overlayWork) {
 		if strings.HasPrefix(name, "stream ") {
 			kind = "stream-" + strings.SplitN(kind, ":", 2)[1]
 			if !strings.HasPrefix(a, "dec=") || !strings.HasPrefix(b, "dec=") {
-				c.Violate("pipeline:stream-not-decodable", "a hand-assembled VP8 stream is rejected by the decoder (generator out of date?)", map[string]any{"case": name, "normal": a, "portable": b})
+				if a == b {
+					// both builds reject it alike: not a C13 matter (the stream generator may be out of date)
+					c.Count("pipeline/stream-rejected-by-both-builds")
+				}
 			}
 		}
 		for which, res := range map[string]string{"normal": a, "portable": b} {
@@ -639,10 +648,10 @@ func pipeline(c *Ctx, w *overlayWork) {
 	// the normal build with AVX2 switched off must agree with itself with AVX2 on
 	if webp.VerifArchHasAVX2() {
 		if w.sse2only.err != nil {
-			c.Violate("pipeline:worker", fmt.Sprintf("pipeline worker (AVX2 off) failed: %v", w.sse2only.err), nil)
+			broken("pipeline worker (AVX2 off) failed: %v", w.sse2only.err)
 		} else {
 			if !strings.Contains(w.sse2only.hdr, "avx2=false") {
-				c.Violate("pipeline:avx2-switch", "the AVX2-off worker still reports AVX2", map[string]any{"header": w.sse2only.hdr})
+				broken("the AVX2-off worker still reports AVX2 (%s)", w.sse2only.hdr)
 			}
 			for _, name := range order {
 				a, b := nres[name], w.sse2only.res[name]
